@@ -266,12 +266,99 @@ impl BuildHasher for SeededState {
 }
 
 /// Drop-in replacements for `std::fs::{File, OpenOptions}`: same calls on the real file
-/// system, plus event recording, call counting and fault injection.
+/// system, or on a thread-local in-memory directory (see [`fs::vfs_enable`]), plus event
+/// recording, call counting and fault injection.
 pub mod fs {
+    use std::cell::RefCell;
+    use std::collections::BTreeMap;
     use std::io::{self, Read, Seek, SeekFrom, Write};
-    use std::path::Path;
+    use std::path::{Path, PathBuf};
+    use std::rc::Rc;
+    use std::sync::OnceLock;
 
     use super::{emit, gate, CallKind, Event};
+
+    type Content = Rc<RefCell<Vec<u8>>>;
+
+    /// In-memory directories of this thread: (root path, file name -> content).
+    type Vfs = Vec<(PathBuf, BTreeMap<String, Content>)>;
+
+    thread_local! {
+        static VFS: RefCell<Vfs> = const { RefCell::new(Vec::new()) };
+    }
+
+    fn with_root<T>(root: &Path, f: impl FnOnce(&mut BTreeMap<String, Content>) -> T) -> Option<T> {
+        VFS.with(|vfs| {
+            vfs.borrow_mut()
+                .iter_mut()
+                .find(|(path, _)| path == root)
+                .map(|(_, files)| f(files))
+        })
+    }
+
+    /// From now on, on this thread, the files directly inside `root` live in memory. `root`
+    /// must exist as a real, empty directory.
+    pub fn vfs_enable(root: &Path) {
+        if with_root(root, |_| ()).is_none() {
+            VFS.with(|vfs| vfs.borrow_mut().push((root.to_path_buf(), BTreeMap::new())));
+        }
+    }
+
+    pub fn vfs_disable_all() {
+        VFS.with(|vfs| vfs.borrow_mut().clear());
+    }
+
+    pub fn vfs_enabled(root: &Path) -> bool {
+        with_root(root, |_| ()).is_some()
+    }
+
+    /// Replaces the content of the in-memory directory.
+    pub fn vfs_set_files(root: &Path, new_files: &BTreeMap<String, Vec<u8>>) {
+        with_root(root, |files| {
+            *files = new_files
+                .iter()
+                .map(|(name, bytes)| (name.clone(), Rc::new(RefCell::new(bytes.clone()))))
+                .collect();
+        });
+    }
+
+    pub fn vfs_files(root: &Path) -> BTreeMap<String, Vec<u8>> {
+        with_root(root, |files| {
+            files
+                .iter()
+                .map(|(name, content)| (name.clone(), content.borrow().clone()))
+                .collect()
+        })
+        .unwrap_or_default()
+    }
+
+    pub fn vfs_list(root: &Path) -> Vec<(String, u64)> {
+        with_root(root, |files| {
+            files
+                .iter()
+                .map(|(name, content)| (name.clone(), content.borrow().len() as u64))
+                .collect()
+        })
+        .unwrap_or_default()
+    }
+
+    enum Target {
+        Real,
+        VirtualFile(PathBuf, String),
+        VirtualDir,
+    }
+
+    fn target(path: &Path) -> Target {
+        if vfs_enabled(path) {
+            return Target::VirtualDir;
+        }
+        match path.parent() {
+            Some(parent) if vfs_enabled(parent) => {
+                Target::VirtualFile(parent.to_path_buf(), name(path))
+            }
+            _ => Target::Real,
+        }
+    }
 
     fn name(path: &Path) -> String {
         path.file_name()
@@ -285,30 +372,122 @@ pub mod fs {
         Ok(())
     }
 
-    pub fn on_remove_file(path: &Path) -> io::Result<()> {
+    /// Names of the in-memory files of `path` (nothing when `path` is a real directory).
+    pub fn virtual_dir_entries(path: &Path) -> Vec<String> {
+        match target(path) {
+            Target::VirtualDir => vfs_list(path).into_iter().map(|(name, _)| name).collect(),
+            _ => Vec::new(),
+        }
+    }
+
+    /// Returns the path the caller has to pass to `std::fs::remove_file`: `path` itself, or for
+    /// an in-memory file (removed here) a real scratch file standing in for it.
+    pub fn on_remove_file(path: &Path) -> io::Result<PathBuf> {
         gate(CallKind::Unlink)?;
-        emit(|| Event::Unlink { name: name(path) });
-        Ok(())
+        match target(path) {
+            Target::VirtualFile(root, file_name) => {
+                let existed =
+                    with_root(&root, |files| files.remove(&file_name).is_some()).unwrap_or(false);
+                if !existed {
+                    return Err(io::Error::new(io::ErrorKind::NotFound, "no such file"));
+                }
+                emit(|| Event::Unlink { name: file_name });
+                let stand_in = path.with_file_name(".verif-unlinked");
+                std::fs::File::create(&stand_in)?;
+                Ok(stand_in)
+            }
+            _ => {
+                emit(|| Event::Unlink { name: name(path) });
+                Ok(path.to_path_buf())
+            }
+        }
+    }
+
+    enum Inner {
+        Real(std::fs::File),
+        Virtual(Content),
+        VirtualDir,
     }
 
     pub struct File {
-        inner: std::fs::File,
+        inner: Inner,
         name: String,
         is_dir: bool,
         pos: u64,
+        can_read: bool,
+        can_write: bool,
     }
 
+    pub struct Metadata {
+        len: u64,
+        is_dir: bool,
+    }
+
+    impl Metadata {
+        #[allow(clippy::len_without_is_empty)]
+        pub fn len(&self) -> u64 {
+            self.len
+        }
+        pub fn is_dir(&self) -> bool {
+            self.is_dir
+        }
+        pub fn is_file(&self) -> bool {
+            !self.is_dir
+        }
+    }
+
+    fn dev_null() -> &'static std::fs::File {
+        static DEV_NULL: OnceLock<std::fs::File> = OnceLock::new();
+        DEV_NULL.get_or_init(|| std::fs::File::open("/dev/null").expect("open /dev/null"))
+    }
+
+    /// Anything not intercepted below still compiles; on an in-memory file it lands on
+    /// /dev/null.
     impl std::ops::Deref for File {
         type Target = std::fs::File;
         fn deref(&self) -> &std::fs::File {
-            &self.inner
+            match &self.inner {
+                Inner::Real(file) => file,
+                _ => dev_null(),
+            }
         }
     }
 
     impl File {
+        pub fn metadata(&self) -> io::Result<Metadata> {
+            match &self.inner {
+                Inner::Real(file) => {
+                    let meta = file.metadata()?;
+                    Ok(Metadata {
+                        len: meta.len(),
+                        is_dir: meta.is_dir(),
+                    })
+                }
+                Inner::Virtual(content) => Ok(Metadata {
+                    len: content.borrow().len() as u64,
+                    is_dir: false,
+                }),
+                Inner::VirtualDir => Ok(Metadata {
+                    len: 0,
+                    is_dir: true,
+                }),
+            }
+        }
+
         pub fn set_len(&self, len: u64) -> io::Result<()> {
             gate(CallKind::SetLen)?;
-            self.inner.set_len(len)?;
+            match &self.inner {
+                Inner::Real(file) => file.set_len(len)?,
+                Inner::Virtual(content) => {
+                    if !self.can_write {
+                        return Err(io::Error::new(io::ErrorKind::InvalidInput, "not writable"));
+                    }
+                    content.borrow_mut().resize(len as usize, 0u8)
+                }
+                Inner::VirtualDir => {
+                    return Err(io::Error::new(io::ErrorKind::InvalidInput, "is a directory"))
+                }
+            }
             emit(|| Event::SetLen {
                 name: self.name.clone(),
                 len,
@@ -316,9 +495,15 @@ pub mod fs {
             Ok(())
         }
 
-        pub fn sync_data(&self) -> io::Result<()> {
+        fn sync(&self, all: bool) -> io::Result<()> {
             gate(CallKind::Sync)?;
-            self.inner.sync_data()?;
+            if let Inner::Real(file) = &self.inner {
+                if all {
+                    file.sync_all()?;
+                } else {
+                    file.sync_data()?;
+                }
+            }
             emit(|| Event::SyncData {
                 name: self.name.clone(),
                 is_dir: self.is_dir,
@@ -326,21 +511,34 @@ pub mod fs {
             Ok(())
         }
 
+        pub fn sync_data(&self) -> io::Result<()> {
+            self.sync(false)
+        }
+
         pub fn sync_all(&self) -> io::Result<()> {
-            gate(CallKind::Sync)?;
-            self.inner.sync_all()?;
-            emit(|| Event::SyncData {
-                name: self.name.clone(),
-                is_dir: self.is_dir,
-            });
-            Ok(())
+            self.sync(true)
         }
     }
 
     impl Read for File {
         fn read(&mut self, buf: &mut [u8]) -> io::Result<usize> {
             gate(CallKind::Read)?;
-            let num_bytes = self.inner.read(buf)?;
+            let num_bytes = match &mut self.inner {
+                Inner::Real(file) => file.read(buf)?,
+                Inner::Virtual(content) => {
+                    if !self.can_read {
+                        return Err(io::Error::new(io::ErrorKind::InvalidInput, "not readable"));
+                    }
+                    let content = content.borrow();
+                    let start = (self.pos as usize).min(content.len());
+                    let num_bytes = buf.len().min(content.len() - start);
+                    buf[..num_bytes].copy_from_slice(&content[start..start + num_bytes]);
+                    num_bytes
+                }
+                Inner::VirtualDir => {
+                    return Err(io::Error::new(io::ErrorKind::InvalidInput, "is a directory"))
+                }
+            };
             emit(|| Event::Read {
                 name: self.name.clone(),
                 offset: self.pos,
@@ -354,7 +552,24 @@ pub mod fs {
     impl Write for File {
         fn write(&mut self, buf: &[u8]) -> io::Result<usize> {
             gate(CallKind::Write)?;
-            let num_bytes = self.inner.write(buf)?;
+            let num_bytes = match &mut self.inner {
+                Inner::Real(file) => file.write(buf)?,
+                Inner::Virtual(content) => {
+                    if !self.can_write {
+                        return Err(io::Error::new(io::ErrorKind::InvalidInput, "not writable"));
+                    }
+                    let mut content = content.borrow_mut();
+                    let start = self.pos as usize;
+                    if content.len() < start + buf.len() {
+                        content.resize(start + buf.len(), 0u8);
+                    }
+                    content[start..start + buf.len()].copy_from_slice(buf);
+                    buf.len()
+                }
+                Inner::VirtualDir => {
+                    return Err(io::Error::new(io::ErrorKind::InvalidInput, "is a directory"))
+                }
+            };
             emit(|| Event::Write {
                 name: self.name.clone(),
                 offset: self.pos,
@@ -365,14 +580,32 @@ pub mod fs {
         }
 
         fn flush(&mut self) -> io::Result<()> {
-            self.inner.flush()
+            match &mut self.inner {
+                Inner::Real(file) => file.flush(),
+                _ => Ok(()),
+            }
         }
     }
 
     impl Seek for File {
         fn seek(&mut self, seek_from: SeekFrom) -> io::Result<u64> {
             gate(CallKind::Seek)?;
-            let pos = self.inner.seek(seek_from)?;
+            let pos = match &mut self.inner {
+                Inner::Real(file) => file.seek(seek_from)?,
+                Inner::Virtual(content) => {
+                    let len = content.borrow().len() as i128;
+                    let target = match seek_from {
+                        SeekFrom::Start(offset) => offset as i128,
+                        SeekFrom::Current(delta) => self.pos as i128 + delta as i128,
+                        SeekFrom::End(delta) => len + delta as i128,
+                    };
+                    if target < 0 {
+                        return Err(io::Error::new(io::ErrorKind::InvalidInput, "negative seek"));
+                    }
+                    target as u64
+                }
+                Inner::VirtualDir => 0,
+            };
             self.pos = pos;
             Ok(pos)
         }
@@ -420,18 +653,56 @@ pub mod fs {
         pub fn open<P: AsRef<Path>>(&self, path: P) -> io::Result<File> {
             let path = path.as_ref();
             gate(CallKind::Open)?;
-            let inner = std::fs::OpenOptions::new()
-                .read(self.read)
-                .write(self.write)
-                .create_new(self.create_new)
-                .create(self.create)
-                .truncate(self.truncate)
-                .append(self.append)
-                .open(path)?;
-            let is_dir = inner.metadata().map(|meta| meta.is_dir()).unwrap_or(false);
+            let mut created = false;
+            let (inner, is_dir) = match target(path) {
+                Target::Real => {
+                    let file = std::fs::OpenOptions::new()
+                        .read(self.read)
+                        .write(self.write)
+                        .create_new(self.create_new)
+                        .create(self.create)
+                        .truncate(self.truncate)
+                        .append(self.append)
+                        .open(path)?;
+                    let is_dir = file.metadata().map(|meta| meta.is_dir()).unwrap_or(false);
+                    created = self.create_new || self.create;
+                    (Inner::Real(file), is_dir)
+                }
+                Target::VirtualDir => {
+                    if self.write || self.create || self.create_new {
+                        return Err(io::Error::new(io::ErrorKind::InvalidInput, "is a directory"));
+                    }
+                    (Inner::VirtualDir, true)
+                }
+                Target::VirtualFile(root, file_name) => {
+                    let content = with_root(&root, |files| -> io::Result<Content> {
+                        match files.get(&file_name) {
+                            Some(_) if self.create_new => Err(io::Error::new(
+                                io::ErrorKind::AlreadyExists,
+                                "file exists",
+                            )),
+                            Some(content) => {
+                                if self.truncate && self.write {
+                                    content.borrow_mut().clear();
+                                }
+                                Ok(content.clone())
+                            }
+                            None if (self.create_new || self.create) && self.write => {
+                                let content: Content = Default::default();
+                                files.insert(file_name.clone(), content.clone());
+                                created = true;
+                                Ok(content)
+                            }
+                            None => Err(io::Error::new(io::ErrorKind::NotFound, "no such file")),
+                        }
+                    })
+                    .unwrap()?;
+                    (Inner::Virtual(content), false)
+                }
+            };
             emit(|| Event::Open {
                 name: name(path),
-                create_new: self.create_new || self.create,
+                create_new: created,
                 write: self.write,
                 is_dir,
             });
@@ -440,6 +711,8 @@ pub mod fs {
                 name: name(path),
                 is_dir,
                 pos: 0,
+                can_read: self.read,
+                can_write: self.write || self.append,
             })
         }
     }
